@@ -338,7 +338,7 @@ pub fn property() -> Property {
                 name: "threads",
                 rule: "1-16 real threads on clones/shared refs of one bar, each 100..20000 (thorough 100000) inc/dec calls with generated deltas and inc/dec pattern, optional concurrent tick/position reader; final position must equal the wrapping sum; non-trivial = >= 2 threads",
                 strategy: conc_strategy,
-                cases: |t| t.pick(60, 1500),
+                cases: |t| t.pick(60, 1_500),
                 run: run_conc,
                 signature: no_signature,
                 essential: &["two_or_more_threads", "inc_and_dec_mixed", "clones", "concurrent_reader"],
